@@ -3,6 +3,7 @@ package verifsim
 import (
 	"encoding/binary"
 	"errors"
+	"fmt"
 	"io"
 	"math/rand/v2"
 	"net"
@@ -79,6 +80,10 @@ func (p *RefPeer) readLoop(c net.Conn) {
 		}
 		if hdr[0] != 23 || hdr[1] != 3 || hdr[2] != 3 {
 			p.fail(errors.New("refpeer: record header is not application data 3.3"))
+			return
+		}
+		if limit := p.maxPay + 14 + 255; n > limit {
+			p.fail(fmt.Errorf("refpeer: a message of %d bytes exceeds the session's on-wire size limit of %d", n, limit))
 			return
 		}
 		f, err := p.codec.Decode(body)
